@@ -102,6 +102,13 @@ let dump_data (d : data) =
   out "x_lb_n" (fmtv d.d_lb_n); out "x_ub" (fmtv d.d_ub);
   out "x_lb_scaling" (fmtv (firstn nlb d.d_lb_scaling)); out "x_ub_scaling" (fmtv (firstn nub d.d_ub_scaling))
 
+let dump_pc (pc : precond) =
+  if not pc.pc_ident then begin
+    out "pc.c" (fmt pc.pc_c); out "pc.c_inv" (fmt pc.pc_c_inv);
+    out "pc.delta" (fmtv pc.pc_delta); out "pc.delta_inv" (fmtv pc.pc_delta_inv);
+    out "pc.delta_lb" (fmtv pc.pc_delta_lb); out "pc.delta_lb_inv" (fmtv pc.pc_delta_lb_inv);
+    out "pc.delta_ub" (fmtv pc.pc_delta_ub); out "pc.delta_ub_inv" (fmtv pc.pc_delta_ub_inv) end
+
 let err_name = function DivZero -> "DivZero" | Index -> "Index" | Fuel -> "Fuel" | Shape -> "Shape"
 
 let dump_result (sv : solver) (st : status) =
@@ -162,7 +169,7 @@ let () =
         if not !dead then begin
           out "op" "setup";
           (match setup consts0 !ident junk !settings (nat_of_int n) (nat_of_int p) (nat_of_int m) (to_blocks b) with
-           | Ok s -> sv := Some s; dump_data s.sv_data
+           | Ok s -> sv := Some s; dump_data s.sv_data; dump_pc s.sv_pc
            | Err e -> out "model_error" (err_name e); dead := true) end;
         incr opno
       | "UPDATE" ->
@@ -174,7 +181,7 @@ let () =
            | None -> ()
            | Some s ->
              (match update consts0 s (to_blocks b) reuse with
-              | Ok s' -> sv := Some s'; dump_data s'.sv_data
+              | Ok s' -> sv := Some s'; dump_data s'.sv_data; dump_pc s'.sv_pc
               | Err e -> out "model_error" (err_name e); dead := true)) end;
         incr opno
       | "SOLVE" ->
